@@ -49,6 +49,10 @@ CLAIMED = {
                      'C05_non_suffix_rejected (one non-suffix extra tree makes tree_map fail before any call), C05_rest_one_per_leaf, '
                      'C05_self_rest (the tree matched against its own treespec yields its leaves), C05_rest_aligned (the i-th sub-tree an extra tree contributes is the one reached from it by following the i-th leaf path of '
                      'the first tree: positions, dict keys whatever the dict kind or order, registration entries; Lemmas/UpToAlign.lean). '
+                     'C05_map_result (when every extra tree is matched and f returns leaf-typed objects, tree_map returns a tree that flattens to exactly the '
+                     'results of the calls, in order, and the treespec of t; the call log is one tuple (leaf_i, subs_1[i], ...) per leaf in flatten order; '
+                     'uses C01_replace_leaves), C05_map_pure (tree_map(g, t) = unflatten(treespec(t), map g leaves)), C05_map_identity, C05_map_compose '
+                     '(map(f . g) = map(f) . map(g) for leaf-valued g). '
                      'The with_path / with_accessor variants and walk / traverse: correspondence + reference alignment in the oracle.' + PARTIAL,
                 technique='Lean 4 proof about the ops.py model, using the flatten_up_to refinement + correspondence', ref='6 C05'),
     'C06': dict(text='Proved: C06_eq_iff (for all well-formed shapes: == on the post-order encodings is True exactly when the shapes are equal - same '
